@@ -15,7 +15,7 @@ use super::{
     ClosedIndex, ClosedPartitionIndex, EVENTS_LEN_SIZE, EVENTS_OFFSET_SIZE, MPHF_GAMMA,
     PARTITION_ID_SIZE, PartitionIndexRecord, PartitionSequenceOffset, RECORD_SIZE, SEQUENCE_SIZE,
 };
-use crate::bucket::segment::{BucketSegmentReader, EventRecord, Record};
+use crate::bucket::segment::{BucketSegmentReader, EventRecord};
 use crate::bucket::{BucketSegmentId, PartitionId};
 use crate::error::{PartitionIndexError, ThreadPoolError};
 
@@ -130,18 +130,18 @@ impl OpenPartitionIndex {
 
     /// Hydrates the index from a reader.
     pub fn hydrate(&mut self, reader: &mut BucketSegmentReader) -> Result<(), PartitionIndexError> {
+        // Only committed events are indexed: after a crash the segment can end in events whose
+        // commit record was never written
         let mut reader_iter = reader.iter();
-        while let Some(record) = reader_iter.next_record()? {
-            match record {
-                Record::Event(EventRecord {
-                    offset,
-                    partition_id,
-                    partition_sequence,
-                    ..
-                }) => {
-                    self.insert(partition_id, partition_sequence, offset)?;
-                }
-                Record::Commit(_) => {}
+        while let Some(committed) = reader_iter.next_committed_events()? {
+            for EventRecord {
+                offset,
+                partition_id,
+                partition_sequence,
+                ..
+            } in committed
+            {
+                self.insert(partition_id, partition_sequence, offset)?;
             }
         }
 
